@@ -1502,9 +1502,9 @@ func (c *compiler) compileFormat(format string, str *String) error {
 func formatToFunc(format string) *Func {
 	switch format {
 	case "@text":
-		return &Func{Name: "tostring"}
+		return &Func{Name: "_tostring"}
 	case "@json":
-		return &Func{Name: "tojson"}
+		return &Func{Name: "_tojson"}
 	case "@html":
 		return &Func{Name: "_tohtml"}
 	case "@uri":
@@ -1532,7 +1532,7 @@ func (c *compiler) compileString(s *String, f *Func) error {
 		return nil
 	}
 	if f == nil {
-		f = &Func{Name: "tostring"}
+		f = &Func{Name: "_tostring"}
 	}
 	var q *Query
 	for _, e := range s.Queries {
